@@ -157,4 +157,34 @@ theorem annotate_wellKeyed {t t' : TType} {named : FieldList} (h : annotate t na
     simp only [this]
     exact hw k hkm
 
+/-- **Typing rule of `TableUnion`**: when the IR implies a type, it is the type the table reports, and every child handed to
+`TableUnion` has exactly that row type and key. -/
+theorem unionIR_spec {unify : Bool} {ts : List TType} {t : TType} (h : unionIR unify ts = some t) :
+    unionReported unify ts = some t ∧
+      ∃ cs, unionChildren unify ts = some (t :: cs) ∧ ∀ c ∈ cs, c.row = t.row ∧ c.key = t.key := by
+  unfold unionIR at h
+  split at h
+  · rename_i c0 cs hc
+    split at h
+    · rename_i hall
+      simp only [Option.some.injEq] at h; subst h
+      refine ⟨by simp [unionReported, hc], cs, hc, ?_⟩
+      intro c hcm
+      have := (List.all_eq_true.mp hall) c hcm
+      simpa using this
+    · simp at h
+  · simp at h
+
+/-- `join` keeps the left key and the types of the left key fields come first in the row -/
+theorem join_key {l r t : TType} (h : join l r = some t) : t.key = l.key ∧ t.globals = l.globals ++ r.globals := by
+  unfold join at h
+  split at h
+  · split at h
+    · simp at h
+    · simp only [] at h
+      split at h
+      · simp at h
+      · simp only [Option.some.injEq] at h; subst h; exact ⟨rfl, rfl⟩
+  · simp at h
+
 end HailVerif.TableType
